@@ -363,7 +363,7 @@ func run(t *testing.T, sc Scenario) *core.Result {
 	var summary map[string]any
 	res := sys.Run(t, opts, func(w *sys.World) {
 		w.ProbeInit("queue_full_reported", "reader_paused", "reader_left_early", "seq_wrapped", "udp_reader", "publisher_source",
-			"secure", "tunnel_http", "tunnel_ws", "late_join", "stall_applied", "back_channel_in_stream", "multicast_reader", "multicast_packets_delivered", "packets_delivered", "srtp_wrap_between_setup_and_play_waived", "reader_timed_out", "reader_api_error_publisher_gone")
+			"secure", "tunnel_http", "tunnel_ws", "late_join", "stall_applied", "back_channel_in_stream", "lossless_udp_format_received", "multicast_reader", "multicast_packets_delivered", "packets_delivered", "srtp_wrap_between_setup_and_play_waived", "reader_timed_out", "reader_api_error_publisher_gone")
 		srvNode := w.Net.Node("srv", "10.0.0.1")
 		h := sys.NewHandler(w)
 		srv := &gortsplib.Server{
@@ -864,7 +864,33 @@ func checkReader(w *sys.World, sc *Scenario, h *sys.Handler, rs *readerState, wr
 		}
 	}
 	if !reliable(rs.spec.Transport) {
-		return // UDP: in-order subsequence, checked online
+		// UDP / multicast: in-order subsequence, checked online. One thing more can be said when the
+		// network loses nothing: a format of which plenty was written while the reader played cannot
+		// arrive empty ("was written ... to that same media and format" has a converse as soon as
+		// nothing is lost: the packets must go to the media and format they were written to).
+		if sc.Net.UDPDrop == 0 && sc.Net.UDPBurst == 0 && sc.Source == "stream" && !sc.Secure && !rs.switched && rs.diedG == 0 && !h.HadWriteError(nil) {
+			rs.mu.Lock()
+			defer rs.mu.Unlock()
+			for k, list := range fwd {
+				n := 0
+				for _, p := range list {
+					for _, iv := range rs.intervals {
+						if p.done && p.callG > iv.playRetG && (iv.endCallG == 0 || p.retG < iv.endCallG) {
+							n++
+						}
+					}
+				}
+				if n >= 20 && len(rs.recv[k]) == 0 {
+					w.Fail("c01/starved format", "reader %d (%s): %d packets of media %d / payload type %d were written while the reader played, the network drops nothing, and none arrived at its callback for that media and format",
+						rs.idx, rs.spec.Transport, n, k.media, k.pt)
+					return
+				}
+				if n >= 20 {
+					w.Probe("lossless_udp_format_received")
+				}
+			}
+		}
+		return
 	}
 	if rs.switched {
 		return
